@@ -17,12 +17,17 @@ ScrMix3 == { << <<L(1,1), A(1), C(1)>>, <<L(1,2), C(2), L(1,3)>>, <<A(2), C(3)>>
              << <<L(2,1), A(1), C(1)>>, <<L(2,2), C(2), L(2,3)>>, <<A(2), C(3)>> >>,
              << <<L(1,1), C(1), L(1,3)>>, <<L(3,2), C(2)>>, <<A(1), A(3), C(3)>> >>,
              << <<L(1,1), L(2,2), C(1)>>, <<A(1), A(2), C(2)>>, <<L(1,3), C(3)>> >> }
+\* a close racing with its own pending accept/read while another handle of the address keeps waiting: whichever call
+\* takes the connection/datagram must deliver it (it may not be dropped)
+ScrRace == { << <<L(1,1), L(1,2), C(1)>>, <<A(1)>>, <<A(2)>> >>,
+             << <<L(2,1), L(2,2), C(1)>>, <<A(1)>>, <<A(2)>> >>,
+             << <<L(1,1), L(1,2), A(2)>>, <<A(1), A(1)>>, <<C(1), C(2)>> >> }
 \* more scripts for the thorough tier
 ScrMore == { << <<L(1,1), C(1), L(1,2)>>, <<L(1,3), A(3), C(3)>>, <<A(1), C(2)>> >>,
              << <<L(2,1), C(1), L(2,2)>>, <<L(2,3), A(3), C(3)>>, <<A(1), C(2)>> >>,
              << <<L(1,1), L(1,2), C(2)>>, <<A(1), A(2), C(1)>>, <<A(1)>> >>,
              << <<L(2,1), L(2,2), C(2)>>, <<A(1), A(2), C(1)>>, <<A(1)>> >>,
              << <<L(1,1), L(3,2)>>, <<C(1), C(2)>>, <<L(1,3), C(3)>> >> }
-ScrAll == ScrDeadlock \cup ScrStuck \cup ScrClosedRead \cup ScrMix3
+ScrAll == ScrDeadlock \cup ScrStuck \cup ScrClosedRead \cup ScrMix3 \cup ScrRace
 ScrThorough == ScrAll \cup ScrMore
 ===============================================================================
